@@ -9,6 +9,7 @@ def sh(cmd, cwd, timeout=900):
     return r.returncode, r.stdout
 if not os.path.isdir(WT):
     print(sh('git -C /repo worktree add -q %s HEAD' % WT, '/')[1])
+sh('git checkout -q -- . ; git clean -fdq ; git checkout -q --detach $(git -C /repo rev-parse HEAD)', WT)
 results=json.load(open('/tmp/confirm_results.json')) if os.path.exists('/tmp/confirm_results.json') and os.environ.get('CONFIRM_MERGE') else {}
 only=sys.argv[1:]
 for d in sorted(glob.glob('/tmp/wt/C??')):
